@@ -1,4 +1,5 @@
 import EupsModel.Model.Db
+import EupsModel.Model.DbFile
 /-! Model of the persisted product cache (`ProductStack.fromCache / _tryCache / cacheIsUpToDate / persist`,
 `Database.isNewerThan`, `Eups.__init__` l.309-313) over `Model/Db.lean`.
 
@@ -10,9 +11,9 @@ after every command in the order of the real modification times, so only the ord
 
 A command (`step`) is one process: `load` every stack (accept the native-flavor cache file or rebuild from
 the database and save every flavor found — the rule of D16), run the command of `Db.lean` on that view,
-and apply its effects in order: database effects change `db` and `touch`, write-through effects change the
-process's view, `save` writes the cache file of the stack from the view.  A crash cuts the trace right
-after the k-th `Database` mutation. -/
+and apply its effects in order, each in three parts: the `Database` mutation changes `db` and `touch`, the
+write-through changes the process's view, `save` writes the cache file of the stack from the view.  A crash
+cuts the trace right after the `Database` part of the k-th effect. -/
 namespace EupsModel.Cache
 open EupsModel.Db
 
@@ -40,9 +41,10 @@ structure World where
   touch : List Touch
   caches : List CacheFile
   now : Nat
+  extras : List Extra := []
   deriving Repr
 
-def World.init (nst : Nat) (dirs : List DirEnt) : World := ⟨nst, Spec.empty, dirs, [], [], 1⟩
+def World.init (nst : Nat) (dirs : List DirEnt) : World := ⟨nst, Spec.empty, dirs, [], [], 1, []⟩
 
 /-! ## pieces of a `Spec` -/
 
@@ -129,19 +131,21 @@ def load (w : World) (u : User) (self : Flav) : Spec × List (List Flav) × Worl
 
 /-- the product directory an effect writes in -/
 def effKey : Eff → Option (Nat × Name)
-  | .dbDeclare d _ => some (d.stack, d.name)
-  | .dbUndeclare s n _ _ => some (s, n)
-  | .dbAssign s _ n _ _ => some (s, n)
-  | .dbUnassign s _ n _ => some (s, n)
-  | _ => none
+  | .declare d _ => some (d.stack, d.name)
+  | .undeclare s n _ _ => some (s, n)
+  | .assign s _ n _ _ => some (s, n)
+  | .unassign s _ n _ => some (s, n)
+  | .rmTree _ => none
+  | .copyExtra _ => none
 
 /-- does the `Database` call rewrite or remove a file (an unassign of a tag that is not there does not) -/
 def effWrites (db : Spec) : Eff → Bool
-  | .dbDeclare _ _ => true
-  | .dbUndeclare s n v f => db.hasDecl s n v f
-  | .dbAssign s _ n f v => db.hasDecl s n v f
-  | .dbUnassign s t n f => db.hasTag s t n f
-  | _ => false
+  | .declare _ _ => true
+  | .undeclare s n v f => db.hasDecl s n v f
+  | .assign s _ n f v => db.hasDecl s n v f
+  | .unassign s t n f => db.hasTag s t n f
+  | .rmTree _ => false
+  | .copyExtra _ => false
 
 def setTouch (ts : List Touch) (s : Nat) (n : Name) (t : Option Nat) : List Touch :=
   let rest := ts.filter fun x => !(x.stack == s && x.name == n)
@@ -149,28 +153,51 @@ def setTouch (ts : List Touch) (s : Nat) (n : Name) (t : Option Nat) : List Touc
   | none => rest
   | some t => ⟨s, n, t⟩ :: rest
 
-/-- one effect of a process of user `u` whose in-memory view is `m` (`fixed`: with the D1 repair) -/
-def applyW (fixed : Bool) (u : User) (wm : World × Spec) (e : Eff) : World × Spec :=
-  let (w, m) := wm
-  match e with
-  | .save s f => ({ w with caches := setCache w.caches ⟨u, s, f, restrict m s f, w.now⟩, now := w.now + 1 }, m)
-  | .rmTree d => ({ w with dirs := w.dirs.filter fun x => x.dir != d }, m)
-  | _ =>
-    match effKey e with
-    | none => (w, applyMemG fixed e m)
-    | some (s, n) =>
-      if effWrites w.db e then
-        let db' := applyDb e w.db
-        let alive := db'.decls.any fun d => d.stack == s && d.name == n
-        ({ w with db := db', touch := setTouch w.touch s n (if alive then some w.now else none), now := w.now + 1 }, m)
-      else (w, m)
+/-- first part of an effect: the `Database` mutation (files and their modification times) -/
+def applyDbW (w : World) (e : Eff) : World :=
+  match effKey e with
+  | none => w
+  | some (s, n) =>
+    if effWrites w.db e then
+      let db' := applyDb e w.db
+      let alive := db'.decls.any fun d => d.stack == s && d.name == n
+      { w with db := db', touch := setTouch w.touch s n (if alive then some w.now else none), now := w.now + 1 }
+    else w
 
-/-- the trace up to and including the k-th `Database` mutation (`k ≥ 1`); the whole trace when there are
-fewer -/
-def cutAfterDb : List Eff → Nat → List Eff
-  | [], _ => []
-  | _, 0 => []
-  | e :: es, k + 1 => e :: (if e.isDb then (if k = 0 then [] else cutAfterDb es k) else cutAfterDb es (k + 1))
+/-- last part of an effect: `save(flavor)` of the stack's cache file from the in-memory view `m'`;
+`rmTree` removes the directory -/
+def applySaveW (u : User) (w : World) (m m' : Spec) (e : Eff) : World :=
+  match e with
+  | .rmTree d => { w with dirs := w.dirs.filter fun x => x.dir != d }
+  | .copyExtra x => { w with extras := x :: w.extras.filter fun y =>
+      !(y.stack == x.stack && y.flav == x.flav && y.name == x.name && y.ver == x.ver && y.path == x.path) }
+  | _ =>
+    match e.saves m with
+    | none => w
+    | some (s, f) => { w with caches := setCache w.caches ⟨u, s, f, restrict m' s f, w.now⟩, now := w.now + 1 }
+
+/-- one whole effect of a process of user `u` whose in-memory view is `m` (`fixed`: with the D1 repair):
+database, write-through, save -/
+def applyW (fixed : Bool) (u : User) (wm : World × Spec) (e : Eff) : World × Spec :=
+  let m' := applyMemG fixed e wm.2
+  (applySaveW u (applyDbW wm.1 e) wm.2 m' e, m')
+
+/-- a trace cut by a crash right after the k-th `Database` mutation (`k ≥ 1`): the effects applied in full and
+the one of which only the database part happens; the whole trace when it has fewer than k mutations -/
+def cutAfterDb : List Eff → Nat → List Eff × Option Eff
+  | [], _ => ([], none)
+  | _, 0 => ([], none)
+  | e :: es, k + 1 =>
+    if e.isDb then
+      (if k = 0 then ([], some e) else let r := cutAfterDb es k; (e :: r.1, r.2))
+    else let r := cutAfterDb es (k + 1); (e :: r.1, r.2)
+
+/-- replay of a trace, possibly cut -/
+def replay (fixed : Bool) (u : User) (wm : World × Spec) (es : List Eff) (last : Option Eff) : World :=
+  let wm' := es.foldl (applyW fixed u) wm
+  match last with
+  | none => wm'.1
+  | some e => applyDbW wm'.1 e
 
 /-! ## commands of a history -/
 
@@ -179,6 +206,8 @@ inductive WCmd
   | run (u : User) (c : Cmd) (crash : Option Nat)
   /-- the cache file of (user, stack, flavor) is deleted -/
   | rmCache (u : User) (s : Nat) (f : Flav)
+  /-- `eups admin clearCache`: every cache file of the user, for every stack, goes -/
+  | clearCache (u : User)
   deriving Repr
 
 structure StepResult where
@@ -187,18 +216,20 @@ structure StepResult where
   flavs : List (List Flav)      -- flavors each stack holds after `Eups.__init__`
   view : Spec                   -- the in-memory stacks after `Eups.__init__`
   trace : List Eff
+  would : List Msg              -- what the command reports it would do (meaningful for dry runs)
   w : World
 
 def stepG (fixed : Bool) (w : World) : WCmd → StepResult
-  | .rmCache u s f => ⟨.ok, false, [], Spec.empty, [], { w with caches := rmCache w.caches u s f }⟩
+  | .rmCache u s f => ⟨.ok, false, [], Spec.empty, [], [], { w with caches := rmCache w.caches u s f }⟩
+  | .clearCache u => ⟨.ok, false, [], Spec.empty, [], [], { w with caches := w.caches.filter fun x => x.user != u }⟩
   | .run u c crash =>
     let (m, fl, w1) := load w u c.self
-    let (out, p) := run w.nst c ⟨w1.db, m, w1.dirs, []⟩
-    let effs := match crash with
-      | none => p.tr
+    let (out, p) := run w.nst c ⟨w1.db, m, w1.dirs, [], w1.extras⟩
+    let cut : List Eff × Option Eff := match crash with
+      | none => (p.tr, none)
       | some k => cutAfterDb p.tr k
-    let crashed := effs.length < p.tr.length
-    ⟨out, crashed, fl, m, effs, (effs.foldl (applyW fixed u) (w1, m)).1⟩
+    ⟨out, cut.2.isSome, fl, m, cut.1 ++ cut.2.toList, wouldDo w.nst c ⟨w1.db, m, w1.dirs, [], w1.extras⟩,
+     replay fixed u (w1, m) cut.1 cut.2⟩
 
 def step (w : World) (c : WCmd) : World := (stepG true w c).w
 def stepPinned (w : World) (c : WCmd) : World := (stepG false w c).w
@@ -207,5 +238,17 @@ def runHistory (w : World) (h : List WCmd) : World := h.foldl step w
 
 /-- what a fresh process of user `u` and flavor `self` sees through the cache -/
 def viaCache (w : World) (u : User) (self : Flav) : Spec := (load w u self).1
+
+/-! ## the same history on the files -/
+
+/-- one command of a history on the record files: the effects the command performs (`StepResult.trace`: cut by a
+crash, the last one reduced to its `Database` part — which is all `applyF` looks at) applied to the files by
+`DbFile.applyF`; the decisions of the command are the ones of `stepG` -/
+def stepF (Fw : DbFile.FileDb × World) (c : WCmd) : DbFile.FileDb × World :=
+  let r := stepG true Fw.2 c
+  (r.trace.foldl (fun F e => DbFile.applyF e F) Fw.1, r.w)
+
+def runHistoryF (nst : Nat) (dirs : List DirEnt) (h : List WCmd) : DbFile.FileDb × World :=
+  h.foldl stepF (DbFile.FileDb.empty, World.init nst dirs)
 
 end EupsModel.Cache
